@@ -148,6 +148,11 @@ def generated_cases(chk):
         out.append(Case("g-c10/" + tag, roots, files))
         out[-1].expected_symbols = expected
         out[-1].fresh_k = 8
+    # overloaded sub-rule operands: 2..4 candidates through one top-level rule (ambiguity / every alternative out of range)
+    for _ in range(60 * scale):
+        roots, files, tag, matching = c10_gen.overloaded_operands(r)
+        out.append(Case("g-c10/" + tag, roots, files, matching=matching))
+        out[-1].fresh_k = 8
     # colliding parameter names under the asm-block hygiene prefix; several offending things of one kind
     for _ in range(60 * scale):
         roots, files, tag = c10_gen.fn_hygiene(r)
@@ -558,14 +563,16 @@ def stream_cli(chk, bins, real, K, k):
                      lambda o: "-f %r" % o.s, lambda o: {"format": o.s}, lambda o: "F\tV\t1:0\t%s" % vlib.hx(o.s))
     # fresh processes (only a new process reseeds the hasher for sure): the first-of-several family always, >= 8 processes each;
     # a sample of the other format strings with >= 2 parameters, and whole command lines
-    jobs = [("-f %r" % s, ["customasm", "main.asm", "-q", "-p", "-f", s], kk) for s in several]
+    fixed = [x for x in several if x.split(",", 1)[1] in ("base:16,group:2", "base:16,zeta:1,alpha:2", "addr_unit:16,group:2,base:16")]
+    several_fresh = fixed + chk.rng.fork("severalpick").shuffle([x for x in several if x not in set(fixed)])[:30 if quick else 1000]
+    jobs = [("-f %r" % s, ["customasm", "main.asm", "-q", "-p", "-f", s], kk) for s in several_fresh]
     jobs += [("command line %r" % (a,), ["customasm"] + a, kk) for a in FIRST_OF_SEVERAL_ARGV]
     others = [s for s in many if s not in set(several)]
-    jobs += [("-f %r" % s, ["customasm", "main.asm", "-p", "-f", s], k) for s in chk.rng.fork("fmtreal").shuffle(others)[:100 if quick else 3000]]
+    jobs += [("-f %r" % s, ["customasm", "main.asm", "-p", "-f", s], k) for s in chk.rng.fork("fmtreal").shuffle(others)[:60 if quick else 3000]]
     if t is not None:
         cmds, spell = cli_gen.command_cases(chk.rng.fork("cmd"), t, quick, c18.CMD_INPUTS)
         cmds = [cs for cs in cmds if c18.sane_for_disk(cs)]
-        cmds = chk.rng.fork("cmdpick").shuffle(cmds)[:120 if quick else 2500]
+        cmds = chk.rng.fork("cmdpick").shuffle(cmds)[:80 if quick else 2500]
         jobs += [("command line %r" % (cs["argv"][1:],), cs["argv"], k) for cs in cmds]
 
     def work(j):
@@ -573,7 +580,7 @@ def stream_cli(chk, bins, real, K, k):
         return [c18.run_real(real, argv, os.path.join(SCRATCH, "cli_%d" % j)) for _ in range(n)]
     with ThreadPoolExecutor(vlib.NCPU) as ex:
         results = list(ex.map(work, range(len(jobs))))
-    dist = {"exit0": 0, "exit1": 0, "other_exit": 0, "first_of_several_8_runs": len(several) + len(FIRST_OF_SEVERAL_ARGV)}
+    dist = {"exit0": 0, "exit1": 0, "other_exit": 0, "first_of_several_8_runs": len(several_fresh) + len(FIRST_OF_SEVERAL_ARGV)}
     for (what, argv, n), outs in zip(jobs, results):
         rc = outs[0][0]
         dist["exit0" if rc == 0 else "exit1" if rc == 1 else "other_exit"] += 1
